@@ -112,7 +112,7 @@ def _alias(run: Run, prog: Program, model: Model) -> None:
             run.holds("ALIAS-FORWARD", construct, f.loc, "delegates to props.type with the same value", nontrivial=True)
         else:
             run.undecided("ALIAS-FORWARD", construct, f.loc, "no descent found")
-    run.floor("ALIAS-FORWARD", 5)
+    run.floor("ALIAS-FORWARD", 4)
 
 
 # ---------------------------------------------------------------------------- union / flatten
@@ -254,6 +254,7 @@ def _add(run: Run, prog: Program, model: Model) -> None:
             return i.call_function(add, [dict_schema(model, t2)], {}, self_val=dict_schema(model, t1, "self"))
         ps = it.run_paths(run1)
         probs: List[str] = []
+        und: List[str] = []
         ok = 0
         for p in ps:
             if p.outcome != "return":
@@ -262,7 +263,7 @@ def _add(run: Run, prog: Program, model: Model) -> None:
             v = p.value
             got = entries_of(v.props.vals.get("keys")) if isinstance(v, SchemaV) and isinstance(v.props, PropsV) else None  # type: ignore
             if got is None:
-                probs.append("result key table is not a concrete table")
+                und.append("result key table is not a concrete table")
                 continue
             e1 = entries_of(box["t1"]) or {}
             e2 = entries_of(box["t2"]) or {}
@@ -276,6 +277,8 @@ def _add(run: Run, prog: Program, model: Model) -> None:
         if probs:
             run.violated("ADD", f"d1 + d2: {label}", add.loc, "; ".join(sorted(set(probs)))[:300],
                          witness="(d1 + d2) disagrees with the dict schema declared with d1's keys overridden and extended by d2's")
+        elif und:
+            run.undecided("ADD", f"d1 + d2: {label}", add.loc, und[0])
         elif ok:
             run.holds("ADD", f"d1 + d2: {label}", add.loc, "result table = {**d1.keys, **d2.keys}, entries unmodified", nontrivial=True)
         else:
@@ -367,8 +370,8 @@ def _getitem_iter(run: Run, prog: Program, model: Model) -> None:
         return i.call_function(ks, [], {}, self_val=dict_schema(model, table(base, False), "self"))
     ps = it.run_paths(run2)
     want = ["r1", "o1"]
-    ok = all(p.outcome == "return" and isinstance(p.value, (ListV, Term)) and
-             ([x.key() for x in p.value.items] == want if isinstance(p.value, ListV) else True) for p in ps)
+    ok = all(p.outcome == "return" and isinstance(p.value, (ListV, SetV, Term)) and
+             ([x.key() for x in p.value.items] == want if isinstance(p.value, (ListV, SetV)) else True) for p in ps)
     if ok and ps:
         run.holds("ITER", "d.keys() / iteration", ks.loc, "enumerates the declared keys in order", nontrivial=True)
     else:
